@@ -247,8 +247,9 @@ def load_known():
     return json.load(open(path))
 
 
-def classify_known(prop, req, imp, known):
+def classify_known(prop, req, imp, known, model=None):
     import classifiers
+    import inspect
 
     for k in known:
         if k.get("property") != prop or k.get("status") != "known":
@@ -256,7 +257,9 @@ def classify_known(prop, req, imp, known):
         fn = getattr(classifiers, k["classifier"].replace("/", "_").replace("-", "_"), None)
         if fn is None:
             raise MachineryError("known finding names unknown classifier %s" % k["classifier"])
-        if fn(req, imp):
+        # a classifier may also look at what the model of the code answers
+        hit = fn(req, imp, model) if len(inspect.signature(fn).parameters) >= 3 else fn(req, imp)
+        if hit:
             return k
     return None
 
@@ -345,7 +348,7 @@ def main():
     real = []          # failing inputs not covered by a known finding
     known_hits = {}
     for req, imp, model in sorted(pred_failures, key=lambda x: (len(x[0]), x[0])):
-        k = classify_known(prop, req, imp, known)
+        k = classify_known(prop, req, imp, known, model)
         if k is not None:
             known_hits.setdefault(k["classifier"], (k, req, imp))
         else:
